@@ -2,8 +2,8 @@
 // shims/serlen_sink.rs - companion of shims/io_sink.rs for the length-agreement units whose subjects hand
 // a writer that HOLDS a mutable reference to generic code (PlainSecretParams::to_writer: TeeWriter;
 // EncryptedSecretParams::to_writer: `&mut &mut Vec<u8>`): crate::ser::Serialize with the same_dest clause,
-// the std Write impls for Vec<u8> and &mut W, Bytes deref + address-space axioms, std::hash::Hasher and
-// crypto::checksum::SimpleChecksum.  Include after shims/io_sink.rs, shims/bytes.rs, shims/checksum_env.rs.
+// the std Write impls for Vec<u8> and &mut W, Bytes deref + length axioms.  Include after shims/io_sink.rs and
+// shims/bytes.rs (std::hash::Hasher and crypto::checksum::SimpleChecksum: shims/serlen_sink_sum.rs).
 // ---------------------------------------------------------------------------------
 
 //@trusted T4 crate::ser::Serialize (abstract, for the COMPONENTS; for the subjects of a unit it is what is verified): to_writer appends exactly wire() on Ok and write_len() == |wire()|, under the type invariant ser_inv().  PARAMETRICITY: to_writer<W> is generic in W, it can reach the writer only through W's io::Write methods, hence preserves same_dest (see shims/io_sink.rs)
@@ -61,43 +61,9 @@ impl core::ops::Deref for Bytes {
 pub proof fn axiom_bytes_len(b: &Bytes)
     ensures b@.len() <= isize::MAX
 {}
-//@trusted T1 no in-memory byte string is longer than 2^56 octets (virtual address space of every supported 64-bit target), so sums of a few lengths fit usize
-#[verifier::external_body]
-pub proof fn axiom_addr_space_bytes(b: &Bytes)
-    ensures b@.len() < 0x0100_0000_0000_0000
-{}
+//@trusted T1 no in-memory byte vector is longer than 2^56 octets (virtual address space of every supported 64-bit target), so sums of a few lengths fit usize (for Bytes: axiom_addr_space_bytes of shims/secret_std.rs)
 #[verifier::external_body]
 pub proof fn axiom_addr_space_vec(v: &Vec<u8>)
     ensures v@.len() < 0x0100_0000_0000_0000
 {}
 
-//@trusted T2 std::hash::Hasher::write(bytes) feeds exactly `bytes` to the hasher: a ghost accumulator seen()
-pub mod hash {
-    use super::*;
-    pub trait Hasher {
-        spec fn seen(&self) -> Seq<u8>;
-        fn write(&mut self, bytes: &[u8])
-            ensures final(self).seen() == old(self).seen() + bytes@;
-    }
-}
-//@trusted T4 crypto::checksum::SimpleChecksum: default() has absorbed nothing; as a Hasher it absorbs what is written; to_writer appends the two octets be16(sum of all absorbed octets mod 65536) and returns an io::Result (proved in U17: incremental == one-shot, to_writer emits the big-endian state; U17's finding simple-sum-u32-overflow for single buffers > 16 MiB is not repeated here)
-pub mod checksum {
-    use super::*;
-    #[verifier::external_body]
-    pub struct SimpleChecksum { _x: u8 }
-    impl SimpleChecksum {
-        pub uninterp spec fn absorbed(&self) -> Seq<u8>;
-        #[verifier::external_body]
-        pub fn default() -> (r: SimpleChecksum) ensures r.absorbed() == Seq::<u8>::empty() { unimplemented!() }
-        #[verifier::external_body]
-        pub fn to_writer<W: io::Write>(&self, writer: &mut W) -> (r: io::Result<()>)
-            ensures r is Ok ==> (*final(writer)).out() == (*old(writer)).out() + be16(sum16(self.absorbed())),
-                (*old(writer)).same_dest(&*final(writer)),
-        { unimplemented!() }
-    }
-    impl hash::Hasher for SimpleChecksum {
-        open spec fn seen(&self) -> Seq<u8> { self.absorbed() }
-        #[verifier::external_body]
-        fn write(&mut self, bytes: &[u8]) { unimplemented!() }
-    }
-}
